@@ -57,6 +57,8 @@ fn main() {
         "serde" => drive_serde(&mut cx),
         "toroidal" => drive_toroidal(&mut cx),
         "extreme" => drive_extreme(&mut cx),
+        "verdictwalk" => drive_verdictwalk(&mut cx),
+        "repairwalk" => drive_repairwalk(&mut cx),
         "failpoints" => drive_failpoints(&mut cx),
         "c07demo" => drive_c07demo(&mut cx),
         "repairtrace" => drive_repairtrace(&mut cx),
